@@ -38,7 +38,7 @@ def BOUND(tier):
 
 
 def _lattice(name):
-    return {"F9M": F9 + [M], "F9": F9, "F5M": F5 + [M], "F5": F5, "F3M": F3 + [M]}[name]
+    return {"F9M": F9 + [M], "F9": F9, "F5M": F5 + [M], "F5": F5, "F3M": F3 + [M], "I3M": [F(-1), F(0), F(1), M]}[name]
 
 
 def _presets(op, n, tier):
@@ -69,6 +69,7 @@ def cases(tier):
                 yield ("packed", op, n, lat, pi, tier)
                 if n <= 3:
                     yield ("packed32", op, n, lat, pi, tier)  # single-precision inputs
+                    yield ("packedint", op, n, "I3M", pi, tier)  # fuzzy values held in integer arrays (-1, 0, +1: e.g. a binary layer)
         if tier == "thorough" and op != "FuzzyNot":
             for pi, _ in enumerate(_presets(op, 4, tier)):
                 yield ("packed", op, 4, "F9M", pi, tier)
@@ -123,7 +124,7 @@ def _cell_inputs(arrays_cells, msg):
 
 def _packed(case):
     kind_, op, n, lat, pi, tier = case
-    dt_ = "float32" if kind_ == "packed32" else "float"
+    dt_ = "float32" if kind_ == "packed32" else "int" if kind_ == "packedint" else "float"
     L = _lattice(lat)
     params = _presets(op, n, tier)[pi]
     tuples = list(itertools.product(L, repeat=n))
@@ -305,7 +306,7 @@ def _small(case):
 
 def run(case):
     case = tuple(case)
-    if case[0] in ("packed", "packed32"):
+    if case[0] in ("packed", "packed32", "packedint"):
         return _packed(case)
     if case[0] == "laws":
         return _laws(case)
